@@ -39,6 +39,11 @@ func loadVariants(verif, prop string) ([]variant, error) {
 	if err := json.Unmarshal(b, &vs); err != nil {
 		return nil, err
 	}
+	for i := range vs {
+		if vs[i].Patch != "" && !filepath.IsAbs(vs[i].Patch) {
+			vs[i].Patch = filepath.Join(verif, vs[i].Patch)
+		}
+	}
 	// independently seeded changes that this property's check is recorded to detect
 	seeds, _ := filepath.Glob(filepath.Join(verif, "seeded", "C*", "meta.json"))
 	sort.Strings(seeds)
